@@ -4,6 +4,7 @@ import Mathlib.Tactic.Linarith
 import Mathlib.Tactic.Ring
 import Mathlib.Tactic.FieldSimp
 import Mathlib.Tactic.NormNum
+import Mathlib.Tactic.Positivity
 
 /-! helper lemmas for C09 (and the rounding lemmas shared with C10) -/
 namespace Pew
@@ -61,6 +62,108 @@ theorem roundHalfUp_near (x : Rat) (n : Int) (h1 : (n : Rat) - 1 / 2 < x) (h2 : 
   rw [← roundHalfEven_eq_halfUp x (no_tie_near x n h1 h2)]
   exact roundHalfEven_near x n h1 h2
 
+/-! ### float64 rounding -/
+
+theorem roundHalfEven_err (x : Rat) : |(roundHalfEven x : Rat) - x| ≤ 1 / 2 := by
+  unfold roundHalfEven
+  have hfl := Rat.floor_le x
+  have hlt := Rat.lt_floor_add_one x
+  push_cast at hlt
+  simp only
+  split_ifs <;> push_cast <;> rw [abs_le] <;> constructor <;> linarith
+
+theorem scale2_eq (a : Rat) (k : Int) : scale2 a k = a * scale2 1 k := by
+  unfold scale2
+  split_ifs <;> ring
+
+theorem scale2_one_pos (k : Int) : 0 < scale2 1 k := by
+  unfold scale2
+  split_ifs <;> positivity
+
+theorem scale2_one_neg (k : Int) : scale2 1 k * scale2 1 (-k) = 1 := by
+  unfold scale2
+  rcases lt_trichotomy k 0 with h | h | h
+  · rw [if_neg (by omega), if_pos (by omega)]
+    field_simp
+  · subst h; simp
+  · rw [if_pos (by omega), if_neg (by omega)]
+    rw [neg_neg]; field_simp
+
+theorem fl_relerr (x : Rat) : |fl x - x| ≤ |x| / 2 ^ 53 := by
+  unfold fl
+  by_cases hx : x = 0
+  · simp [hx]
+  rw [if_neg hx]
+  simp only []
+  generalize (if scale2 (if x < 0 then -x else x) (((Nat.log2 (if x < 0 then -x else x).num.natAbs : Nat) : Int) - ((Nat.log2 (if x < 0 then -x else x).den : Nat) : Int) - 52) < 4503599627370496
+      then ((Nat.log2 (if x < 0 then -x else x).num.natAbs : Nat) : Int) - ((Nat.log2 (if x < 0 then -x else x).den : Nat) : Int) - 1
+      else ((Nat.log2 (if x < 0 then -x else x).num.natAbs : Nat) : Int) - ((Nat.log2 (if x < 0 then -x else x).den : Nat) : Int)) - 52 = k
+  have habs : (if x < 0 then -x else x) = |x| := by
+    split_ifs with h
+    · exact (abs_of_neg h).symm
+    · exact (abs_of_nonneg (not_lt.mp h)).symm
+  rw [habs]
+  have hpos : 0 < |x| := abs_pos.mpr hx
+  by_cases hq : 4503599627370496 ≤ scale2 |x| k ∧ scale2 |x| k < 9007199254740992
+  · rw [if_pos hq]
+    have herr := roundHalfEven_err (scale2 |x| k)
+    have hc := scale2_one_pos k
+    have hc' := scale2_one_pos (-k)
+    have hinv := scale2_one_neg k
+    have hs := scale2_eq |x| k
+    rw [hs] at herr hq ⊢
+    rw [scale2_eq (roundHalfEven (|x| * scale2 1 k) : Rat)]
+    generalize (roundHalfEven (|x| * scale2 1 k) : Rat) = n at herr ⊢
+    have e1 : n * scale2 1 (-k) - |x| = (n - |x| * scale2 1 k) * scale2 1 (-k) := by
+      have : |x| * scale2 1 k * scale2 1 (-k) = |x| := by rw [mul_assoc, hinv, mul_one]
+      linarith [this]
+    have hb : abs (n * scale2 1 (-k) - |x|) ≤ |x| / 2 ^ 53 := by
+      rw [e1, abs_mul, abs_of_pos hc']
+      have h52 : scale2 1 (-k) ≤ |x| / 4503599627370496 := by
+        rw [le_div_iff₀ (by norm_num)]
+        calc scale2 1 (-k) * 4503599627370496 ≤ scale2 1 (-k) * (|x| * scale2 1 k) :=
+              mul_le_mul_of_nonneg_left hq.1 hc'.le
+          _ = |x| * (scale2 1 k * scale2 1 (-k)) := by ring
+          _ = |x| := by rw [hinv, mul_one]
+      calc abs (n - |x| * scale2 1 k) * scale2 1 (-k) ≤ 1 / 2 * (|x| / 4503599627370496) :=
+            mul_le_mul herr h52 hc'.le (by norm_num)
+        _ = |x| / 2 ^ 53 := by norm_num; ring
+    split_ifs with hneg
+    · have : -(n * scale2 1 (-k)) - x = -(n * scale2 1 (-k) - |x|) := by rw [abs_of_neg hneg]; ring
+      rw [this, abs_neg]; exact hb
+    · have : n * scale2 1 (-k) - x = n * scale2 1 (-k) - |x| := by rw [abs_of_nonneg (not_lt.mp hneg)]
+      rw [this]; exact hb
+  · rw [if_neg hq]; simp; positivity
+
+theorem fl_zero : fl 0 = 0 := by simp [fl]
+
+/-- rounding to float64 keeps the sign -/
+theorem fl_neg_iff (x : Rat) : fl x < 0 ↔ x < 0 := by
+  have h := fl_relerr x
+  have h53 : (0 : Rat) < 2 ^ 53 := by positivity
+  constructor
+  · intro hf
+    by_contra hx
+    have hx' : 0 ≤ x := not_lt.mp hx
+    rw [abs_of_nonneg hx'] at h
+    have : x / 2 ^ 53 ≤ x / 1 := div_le_div_of_nonneg_left hx' (by norm_num) (by norm_num)
+    rw [abs_le] at h
+    linarith [h.1]
+  · intro hx
+    rw [abs_of_neg hx] at h
+    rcases eq_or_lt_of_le (show x / 2 ^ 53 ≤ 0 from div_nonpos_of_nonpos_of_nonneg hx.le h53.le) with h0 | h0
+    · have : x = 0 := by
+        rcases div_eq_zero_iff.mp h0 with h1 | h1
+        · exact h1
+        · exact absurd h1 (ne_of_gt h53)
+      linarith
+    · have hlt : -x / 2 ^ 53 < -x := by
+        rw [div_lt_iff₀ h53]
+        have : (1 : Rat) < 2 ^ 53 := by norm_num
+        nlinarith
+      rw [abs_le] at h
+      linarith [h.2]
+
 namespace Srr
 
 theorem magInt_natCast (M : Nat) (hM : 1 ≤ M) : magInt (M : Rat) = M := by
@@ -84,6 +187,33 @@ theorem spp_pos (size M : Nat) (hs : 1 ≤ size) (hM : 1 ≤ M) : 1 ≤ subpixel
   have hdvd : M ∣ Nat.lcm size M := Nat.dvd_lcm_right size M
   exact Nat.div_pos (Nat.le_of_dvd hpos hdvd) (by omega)
 
+/-! ### `subpixels_per_pixel` in the integer arithmetic of the code (structural tie) -/
+
+theorem roundHalfEven_nonneg (x : Rat) (hx : 0 ≤ x) : 0 ≤ roundHalfEven x := by
+  unfold roundHalfEven
+  have hf : 0 ≤ x.floor := Rat.le_floor_iff.mpr (by simpa using hx)
+  simp only
+  split_ifs <;> omega
+
+theorem magRound_nonneg (m : Rat) (hm : 0 < m) : 0 ≤ roundHalfEven (if m < 1 then fl (1 / m) else m) := by
+  apply roundHalfEven_nonneg
+  split_ifs with h
+  · have : ¬ fl (1 / m) < 0 := by
+      rw [fl_neg_iff]; exact not_lt.mpr (by positivity)
+    exact not_lt.mp this
+  · exact hm.le
+
+/-- `np.lcm(size, mag) // mag` in integer arithmetic (as the code computes it) is the model's `subpixelsPerPixel` -/
+theorem spp_int_eq (size : Nat) (m : Rat) (hm : 0 < m) :
+    Int.fdiv ((Int.lcm (size : Int) (roundHalfEven (if m < 1 then fl (1 / m) else m)) : Nat) : Int)
+        (roundHalfEven (if m < 1 then fl (1 / m) else m))
+      = ((subpixelsPerPixel size m : Nat) : Int) := by
+  have h0 := magRound_nonneg m hm
+  unfold subpixelsPerPixel magInt
+  generalize roundHalfEven (if m < 1 then fl (1 / m) else m) = r at h0 ⊢
+  obtain ⟨n, rfl⟩ := Int.eq_ofNat_of_zero_le h0
+  rw [Int.fdiv_eq_ediv_of_nonneg _ (by omega)]
+  simp [Int.lcm]
 /-! ### `maxList`, effective offsets -/
 
 theorem foldl_max_ge (l : List Nat) (a : Nat) : a ≤ l.foldl max a := by
@@ -215,7 +345,7 @@ theorem valid_unpack {α : Type} (c : SrrConfig) (M : Nat) (hM : 1 ≤ M) (layer
   refine ⟨?_, by omega, by omega⟩
   by_contra hneg
   have hw : (c.warmup : Rat) < 0 := by exact_mod_cast (lt_of_not_ge hneg)
-  exact a (mul_neg_of_neg_of_pos hw hs)
+  exact a ((fl_neg_iff _).mpr (mul_neg_of_neg_of_pos hw hs))
 
 
 
@@ -342,10 +472,46 @@ theorem lcmList_const (l : List Nat) (s : Nat) (hne : l ≠ []) (h : ∀ x ∈ l
     rw [h y (by simp), Nat.lcm_one_left]
     exact foldl_lcm_const ys s (fun x hx => h x (by simp [hx]))
 
-theorem roundtrip_state (c : SrrConfig) (hs : c.scantime ≠ 0) (ho : c.offs ≠ []) (hz : 1 ≤ c.size) :
+/-- the warm-up survives `to_array`/`from_array`: with float64 rounding after the product and after the quotient,
+`round(fl(fl(n·s) / s)) = n` for every non-zero scan time and `|n| ≤ 2⁵⁰` -/
+theorem warmup_robust (s : Rat) (hs : s ≠ 0) (N : Int) (hN : N.natAbs ≤ 2 ^ 50) :
+    roundHalfEven (fl (fl ((N : Rat) * s) / s)) = N := by
+  have hsp : 0 < |s| := abs_pos.mpr hs
+  have hA : |(N : Rat)| ≤ 2 ^ 50 := by
+    have : ((N.natAbs : Int) : Rat) ≤ ((2 ^ 50 : Nat) : Rat) := by exact_mod_cast hN
+    rw [Int.natCast_natAbs, Int.cast_abs] at this
+    calc |(N : Rat)| ≤ ((2 ^ 50 : Nat) : Rat) := this
+      _ = 2 ^ 50 := by norm_num
+  have hy := fl_relerr ((N : Rat) * s)
+  have hw : |fl ((N : Rat) * s) / s - N| ≤ |(N : Rat)| / 2 ^ 53 := by
+    have e : fl ((N : Rat) * s) / s - N = (fl ((N : Rat) * s) - N * s) / s := by
+      field_simp
+    rw [e, abs_div, div_le_iff₀ hsp]
+    calc |fl (↑N * s) - ↑N * s| ≤ |(N : Rat) * s| / 2 ^ 53 := hy
+      _ = |(N : Rat)| / 2 ^ 53 * |s| := by rw [abs_mul]; ring
+  have hz := fl_relerr (fl ((N : Rat) * s) / s)
+  have hwa : |fl ((N : Rat) * s) / s| ≤ |(N : Rat)| + |(N : Rat)| / 2 ^ 53 := by
+    have := abs_sub_abs_le_abs_sub (fl ((N : Rat) * s) / s) (N : Rat)
+    linarith
+  have hfin : |fl (fl ((N : Rat) * s) / s) - N| < 1 / 2 := by
+    have t := abs_sub_le (fl (fl ((N : Rat) * s) / s)) (fl ((N : Rat) * s) / s) (N : Rat)
+    have h53 : (0 : Rat) < 2 ^ 53 := by positivity
+    have : |fl ((N : Rat) * s) / s| / 2 ^ 53 ≤ (|(N : Rat)| + |(N : Rat)| / 2 ^ 53) / 2 ^ 53 :=
+      div_le_div_of_nonneg_right hwa h53.le
+    have hb : (|(N : Rat)| + |(N : Rat)| / 2 ^ 53) / 2 ^ 53 + |(N : Rat)| / 2 ^ 53 < 1 / 2 := by
+      have : |(N : Rat)| / 2 ^ 53 ≤ 2 ^ 50 / 2 ^ 53 := div_le_div_of_nonneg_right hA h53.le
+      have h2 : (|(N : Rat)| + |(N : Rat)| / 2 ^ 53) / 2 ^ 53 ≤ (2 ^ 50 + 2 ^ 50 / 2 ^ 53) / 2 ^ 53 :=
+        div_le_div_of_nonneg_right (by linarith) h53.le
+      have : ((2 : Rat) ^ 50 + 2 ^ 50 / 2 ^ 53) / 2 ^ 53 + 2 ^ 50 / 2 ^ 53 < 1 / 2 := by norm_num
+      linarith
+    linarith
+  rw [abs_lt] at hfin
+  exact roundHalfEven_near _ N (by linarith [hfin.1]) (by linarith [hfin.2])
+
+theorem roundtrip_state (c : SrrConfig) (hs : c.scantime ≠ 0) (ho : c.offs ≠ []) (hz : 1 ≤ c.size)
+    (hwb : c.warmup.natAbs ≤ 2 ^ 50) :
     SrrConfig.fromArray c.toArray = c := by
-  have hw : roundHalfEven ((c.warmup : Rat) * c.scantime / c.scantime) = c.warmup := by
-    rw [mul_div_assoc, div_self hs, mul_one]; exact roundHalfEven_intCast _
+  have hw := warmup_robust c.scantime hs c.warmup hwb
   have hl : lcmList ((c.offs.map (fun o => (o, c.size))).map (·.2)) = c.size := by
     apply lcmList_const
     · simpa using ho
